@@ -176,6 +176,12 @@ def m_outcome(out, base, tag: str, exec_slack=None) -> list[Violation]:
         a, b = final_statuses(out), final_statuses(base)
         for ref in b:
             if a.get(ref) != b[ref]:
+                if b[ref] == "SKIPPED":
+                    # a branch the OR-split decided to skip was started instead (and its tasks ran)
+                    vs.append(Violation(
+                        what=f"stage {ref}, skipped by its OR-split in the reference run, ran and ends {a.get(ref)} ({tag})",
+                        signature=f"skipped-branch-ran:{tag}", replay=_replay(out, {"baseline_final": b})))
+                    return vs
                 vs.append(Violation(
                     what=f"stage {ref} ends {a.get(ref)} but {b[ref]} in the in-order exactly-once run ({tag})",
                     signature=f"outcome:stage:{b[ref]}->{a.get(ref)}:{tag}",
